@@ -15,9 +15,11 @@ EXTENDS VirtQueue, Json, IOUtils
 
 Rec == ndJsonDeserialize(IOEnv.TRACE)
 
-VARIABLE l        \* index of the next event to explain
+VARIABLES l,      \* index of the next event to explain
+          pn      \* obligation left by the last should_notify of a driver-owned queue:
+                  \* "must" - the next event has to be the notification; "mustnot"; "free"
 
-tvars == <<vars, l>>
+tvars == <<vars, l, pn>>
 
 Ev == Rec[l]
 Is(name) == l <= Len(Rec) /\ Rec[l].e = name /\ l' = l + 1
@@ -30,7 +32,7 @@ ToImage(t) == [i \in 1..Len(t) |-> ToDesc(t[i])]
 ToElems(s) == [i \in 1..Len(s) |-> [pa |-> s[i].pa, len |-> s[i].len, w |-> s[i].w]]
 
 TraceInit ==
-  /\ l = 1
+  /\ l = 1 /\ pn = "free"
   /\ Init0([n |-> 1, indirect |-> FALSE, eventIdx |-> FALSE, ap |-> FALSE])
 
 \* a queue is created with exactly the mechanisms the scenario asked for
@@ -75,8 +77,10 @@ TQuery == /\ Is("Q")
 TSdnCall == Is("SdnCall") /\ SetDevNotifyCall(Ev.en)
 TSdnRet  == Is("SdnRet") /\ SetDevNotifyRet
 
-\* the notification itself is a transport matter (Lifecycle.tla); here it is a stuttering step
+\* the notification itself is a transport matter (Lifecycle.tla); here it discharges the obligation
 TNotify == Is("Notify") /\ UNCHANGED vars
+\* should_notify evaluated inside a driver (result not logged): C05 then speaks about what follows
+TSN == Is("SN") /\ ShouldNotifyCalled
 
 \* device steps; the recorder's own parse of the chain must agree with the specification's
 TDevTake == /\ Is("DevTake")
@@ -95,18 +99,40 @@ TDevFlags      == Is("DevFlags") /\ DevUsedFlags(Ev.v)
 \* driver wrote, and nothing the driver does afterwards may depend on the difference (C07)
 TDevScribble   == Is("DevScribble") /\ UNCHANGED vars
 
+\* Quiescent-to-quiescent fast-forward: the harness ran the real queue through add/complete/pop
+\* cycles without recording them (to reach interesting places of the 16-bit index space).  Only
+\* allowed when nothing is outstanding; every value comes from device-visible memory.
+TSkip == /\ Is("Skip")
+         /\ op = NoOp /\ held = <<>> /\ shared = <<>> /\ lastUsed = usedIdx /\ devNext = idxMem
+         /\ availIdx' = Ev.idx /\ idxMem' = Ev.idx /\ devNext' = Ev.idx
+         /\ usedIdx' = Ev.idx /\ lastUsed' = Ev.idx /\ lastChecked' = Ev.last_checked
+         /\ usedEvent' = Ev.used_event /\ availFlags' = Ev.avail_flags
+         /\ usedFlags' = Ev.used_flags /\ availEvent' = Ev.avail_event
+         /\ desc' = <<>> /\ ring' = <<>> /\ usedRing' = <<>> /\ wrote' = <<>> /\ devHeld' = {}
+         /\ UNCHANGED <<cfg, held, op, shared>>
+
 \* Events with no action: UnhookedStore, DevBadAddress, Panic, Stuck - each ends the match.
 
-TraceNext ==
+Other ==
   \/ TReset \/ TInitLinks
   \/ TAddCall \/ TShare \/ TStore \/ TFence \/ TAddRet
   \/ TPopCall \/ TUnshare \/ TPopRet
-  \/ TQuery \/ TSdnCall \/ TSdnRet \/ TNotify
+  \/ TQuery \/ TSdnCall \/ TSdnRet
+  \/ TSkip
   \/ TDevTake \/ TDevElem \/ TDevIdx \/ TDevAvailEvent \/ TDevFlags \/ TDevScribble
+
+\* device steps may fall between should_notify and the notification (the device runs concurrently)
+DevOnly == TDevTake \/ TDevElem \/ TDevIdx \/ TDevAvailEvent \/ TDevFlags \/ TDevScribble
+
+TraceNext ==
+  \/ pn # "must" /\ Other /\ pn' = (IF pn = "mustnot" /\ Rec[l].e \in {"DevTake", "DevElem", "DevIdx", "DevAvailEvent", "DevFlags", "DevScribble"} THEN "mustnot" ELSE "free")
+  \/ pn = "must" /\ DevOnly /\ pn' = "must"
+  \/ pn # "must" /\ TSN /\ pn' = NotifyVerdict
+  \/ pn # "mustnot" /\ TNotify /\ pn' = "free"
 
 \* C02 (action property): the index in memory only ever advances by one - except that a new
 \* scenario starts from a fresh queue
-TIdxMonotone == [][Rec[l].e = "Reset" \/ idxMem' = idxMem \/ idxMem' = Inc(idxMem)]_tvars
+TIdxMonotone == [][Rec[l].e \in {"Reset", "Skip"} \/ idxMem' = idxMem \/ idxMem' = Inc(idxMem)]_tvars
 
 TraceSpec == TraceInit /\ [][TraceNext]_tvars
 
